@@ -246,6 +246,14 @@ def s2(chk: Check, proj: Project) -> None:
     chk.ob("S2", "finders:_is_path_valid:path-judged-unchanged", mp.loc(re_assign[0]) if re_assign else mp.loc(fp), okp,
            f"`{pth}` reaches any_regex_match / no_regex_match unchanged" if okp else
            f"`{short(re_assign[0]) if re_assign else 'the helpers receive another value'}`: the path is transformed before it is matched while the configured patterns are not - a forbidden pattern with an upper-case letter (`^Private/`, `SECRET`) never matches any more and the files it hides become exposed")
+    # a configured suffix must match at the exact END of the path: `$` also matches before a trailing newline
+    anchors = [b.right for b in ast.walk(fp) if isinstance(b, ast.BinOp) and isinstance(b.op, ast.Add) and isinstance(b.right, ast.Constant) and isinstance(b.right.value, str)
+               and any(isinstance(c, ast.Call) and last_attr(c.func) == "escape" for c in ast.walk(b.left))]
+    if anchors:
+        bad_a = [a for a in anchors if a.value != "\\Z"]
+        chk.ob("S2", "finders:_is_path_valid:suffix-anchored-at-exact-end", mp.loc(bad_a[0]) if bad_a else mp.loc(anchors[0]), not bad_a,
+               "suffixes are compiled as `<escaped suffix>\\Z`" if not bad_a else
+               f"suffixes are compiled with `{bad_a[0].value}` as the end anchor, which also matches before a trailing newline: a file named 'evil.css\\n' counts as ending in '.css' and is exposed, 'mod.py\\n' counts as a '.py' file")
     # other methods returning / yielding paths
     cls = proj.mod("finders").cls("ComponentsFileSystemFinder")
     for st in cls.body:
